@@ -176,6 +176,23 @@ def run(ctx):
         results.append(o)
     ctx.stage('scripts')
 
+    # a time-of-day wait pending across the switch: the pattern is left alone, the duration is still re-expressed
+    for f in U.MODES:
+        for t in U.MODES:
+            for dur in ([2.5, 0.75, 10] if f != 'raw' else [2500, 750, 10000]):
+                for pat in ['12:34', '1:*5']:
+                    head = 'units %s hue 1 saturation 1 brightness 1 kelvin 2000 red 1 green 1 blue 1 duration %s time at %s\n' % (f, dur, pat)
+                    a = U.run_script(world, head + 'set "L1"\n')
+                    b = U.run_script(world, head + 'units %s\nset "L1"\n' % t)
+                    ctx.count()
+                    da = [e[2] for e in a.calls.get('L1', []) if e[0] == 'color']
+                    db = [e[2] for e in b.calls.get('L1', []) if e[0] == 'color']
+                    if a.errors or b.errors or len(da) != 1 or da != db or a.pauses != b.pauses:
+                        ctx.counterexample('C14/switch-with-pending-time-of-day-%s-to-%s' % (f, t),
+                                           'with `time at %s` pending, `units %s` after `units %s duration %s` changes what is sent or awaited: duration %r -> %r, waits %r -> %r, errors %r'
+                                           % (pat, t, f, dur, da, db, a.pauses, b.pauses, (a.errors + b.errors)[:1]), {'script': head + 'units %s\nset "L1"\n' % t, 'baseline_script': head + 'set "L1"\n'})
+    ctx.stage('pending-time-of-day')
+
     frame_items, frame_meta = [], []
     sent_items, sent_meta = [], []
     delay_items, delay_meta = [], []
